@@ -206,3 +206,6 @@ _q["make_diff"].calls["call_diff_logic"] = _q["<call_diff_logic>"]
 _q["make_diff"].calls["apply_acl_diff"] = _q["<apply_acl_diff>"]
 _q["make_diff"].calls["mark_unchanged"] = _q["<mark_unchanged>"]
 M.export(copy=PyConstObj("copy"))
+
+M.lemma("none_acls_are_skipped", vars=dict(d=DiffO), hyps=[], goal="fold_acl([None, None], d) == d and fold_acl([], d) == d",
+        properties=["C03", "C16"])
